@@ -239,6 +239,11 @@ class Aspire:
         self.training_samples = samples
         logger.info(f"Training with {len(samples.x)} samples")
         history = self.flow.fit(samples.x, **kwargs)
+        if hasattr(self, "_resume_from_default"):
+            # The checkpoint primed by resume_from_file holds particles
+            # weighted under the previous proposal; do not resume it with
+            # the refitted one
+            del self._resume_from_default
         defaults = getattr(self, "_checkpoint_defaults", None)
         if checkpoint_path is None and defaults:
             checkpoint_path = defaults["path"]
